@@ -10,6 +10,7 @@ OUT="$(cd "$(dirname "$0")/.." && pwd)/seeded/$NAME"
 export CARGO_NET_OFFLINE=true
 cd "$WT" || exit 2
 rm -f tests/zz_demo.rs
+git add -N src >/dev/null 2>&1   # new files count
 git diff -- src > /tmp/seed-$NAME.diff
 [ -s /tmp/seed-$NAME.diff ] || { echo "no src change in $WT"; exit 2; }
 echo "== (1) test suite with the change"
@@ -20,10 +21,10 @@ cp demo.rs tests/zz_demo.rs
 cargo test --offline --test zz_demo 2>&1 | grep -E "^test result|^error" | sed 's/^/   /'
 cargo test --offline --test zz_demo >/dev/null 2>&1; s2=$?
 echo "== (3) demo without the change (must pass)"
-git stash push -q -- src
+git apply -R /tmp/seed-$NAME.diff || { echo "cannot revert the change"; exit 2; }
 cargo test --offline --test zz_demo 2>&1 | grep -E "^test result|^error" | sed 's/^/   /'
 cargo test --offline --test zz_demo >/dev/null 2>&1; s3=$?
-git stash pop -q
+git apply /tmp/seed-$NAME.diff
 rm -f tests/zz_demo.rs
 echo "suite_failures=$s1 demo_with=$s2 demo_without=$s3"
 if [ "$s1" = 0 ] && [ "$s2" != 0 ] && [ "$s3" = 0 ]; then
